@@ -103,6 +103,10 @@ func genBase(r *rng.R) Schema {
 		if r.Chance(1, 8) {
 			t.Name = rng.Pick(r, []string{"Users", "order", "my table", "new_t0"}) + strconv.Itoa(i)
 		}
+		if i > 0 && r.Chance(1, 12) {
+			// the temporary name the planner would use for the previous table
+			t.Name = "new_" + s.Tables[i-1].Name
+		}
 		t.Strict = r.Chance(1, 6)
 		// primary key shape
 		switch k := r.Intn(10); {
@@ -180,9 +184,6 @@ func genBase(r *rng.R) Schema {
 
 func addRandIdx(r *rng.R, t *Table) {
 	c := t.Cols[r.Intn(len(t.Cols))]
-	if c.Gen != "" && !c.Stored && false {
-		return
-	}
 	ix := Idx{Name: fmt.Sprintf("ix_%s_%d", strings.ReplaceAll(t.Name, " ", "_"), len(t.Idx)+r.Intn(100)), Cols: []string{c.Name}, Unique: r.Chance(1, 4), Desc: r.Chance(1, 5)}
 	if r.Chance(1, 4) && len(t.Cols) > 1 {
 		c2 := t.Cols[r.Intn(len(t.Cols))]
